@@ -193,8 +193,11 @@ def add_loop_invariants(t, shape=None):
         mu = re.match(r"0\s*\.\.\s*([A-Za-z_]\w*)$", rng)
         if mu and nest:
             pv, pu, _ = nest[-1]
+            # both flattenings of the pair (outer, inner): B*outer + inner < A*B and A*inner + outer < A*B
             hint = "\n assert(%s * %s + %s < %s * %s) by (nonlinear_arith) requires %s < %s, %s < %s;\n" % (
                 mu.group(1), pv, var, pu, mu.group(1), pv, pu, var, mu.group(1))
+            hint += " assert(%s * %s + %s < %s * %s) by (nonlinear_arith) requires %s < %s, %s < %s;\n" % (
+                pu, var, pv, mu.group(1), pu, pv, pu, var, mu.group(1))
         if mu:
             nest.append((var, mu.group(1), body_end))
         out += t[pos:m.start()] + "for %s in %s\n invariant %s,\n {%s" % (var, rng, ", ".join(invs) if invs else "true", hint)
